@@ -91,8 +91,9 @@ type presentation struct {
 	task                 string
 	enterSeq             int64
 	newTopTid, newTopSid bool
-	overlap              bool // another presentation to the same down track was in flight meanwhile
-	overlapOther         bool // ... and it was of a different source packet (two overlapping presentations of the SAME packet leave no doubt about the bookkeeping: exactly one of them can count)
+	maxWantedTid         uint8 // highest wanted temporal layer stored in the layer word while the call was in progress
+	overlap              bool  // another presentation to the same down track was in flight meanwhile
+	overlapOther         bool  // ... and it was of a different source packet (two overlapping presentations of the SAME packet leave no doubt about the bookkeeping: exactly one of them can count)
 	newestAtEnter        bool
 }
 
@@ -412,6 +413,11 @@ func (w *mediaWorld) installProbes() {
 			w.c.Count("probe.layer_word_lost_update", 1)
 			w.c.Violation("C04.layer-changed-outside-forwarding", "receiver %d: lost update of the layer word: task %s (%s) stores %08x, computed from a word it loaded before task %s stored %08x; that update is lost (unsynchronised load-modify-store)", rs.idx, t, simrt.CurrentTaskName(), cur, last.task, last.word)
 		}
+		for _, pr := range rs.inflight {
+			if wt := uint8((cur >> 20) & 0xF); wt > pr.maxWantedTid {
+				pr.maxWantedTid = wt
+			}
+		}
 		now := w.c.Stamp()
 		if os.Getenv("VERIF_C04_DEBUG") != "" {
 			fmt.Fprintf(os.Stderr, "C04 stamp=%d store %08x by %s (%s) loadedAt=%d last=%+v\n", now, cur, t, simrt.CurrentTaskName(), lwLoadAt[dt][t], last)
@@ -692,6 +698,12 @@ func (w *mediaWorld) judge(rs *recvState, pr *presentation, after rtpconn.VerifL
 		wanted := pr.before.WantedTid
 		if after.WantedTid > wanted {
 			wanted = after.WantedTid
+		}
+		// the feedback handler may raise and lower the wanted layer again
+		// while this call is in progress: every value the word held during
+		// the call counts
+		if pr.maxWantedTid > wanted {
+			wanted = pr.maxWantedTid
 		}
 		tidOK := func(from uint8) bool {
 			switch {
